@@ -1,5 +1,5 @@
 """C18 — Junos streaming-filter (SAX) mode is transparent and segmentation-independent.
-Model: coq/Model/SaxFilter.v (the SAXParser handler); spec: coq/Spec/Projection.v; theorems: coq/Props/C18.v.
+Model: coq/Model/SaxFilter.v (the SAXParser handler), coq/Model/JunosParse.v / JunosParse11.v (the driver under base:1.0 / base:1.1); spec: coq/Spec/Projection.v; theorems: coq/Props/C18.v.
 (a) handler level: real SAXParser under real expat, events teed and replayed on the extracted model; oracle = an
     independent xml.etree projection of the full reply.  (b) whole path: a Junos-profile session fed reply byte
     streams under enumerated cuts; oracle = reply equals the one obtained with the mode off (no filter) / equals
@@ -20,16 +20,20 @@ RULE = ('(a) handler level: documents from a grammar of Junos-style replies (pla
         '(XML text, bytes, lxml element -- falsy when it has no children --, sub-element of a larger tree, one element object '
         'shared by two requests) and in which a request has none (filter_xml=None, argument omitted, Command / GetConfiguration '
         'objects without the attribute) are drawn per request in every family, every handler-level case is repeated in all forms, and '
-        'for streams with single-leaf / deeper filters, first-child / wrapper replies all combinations of forms are run. Every cut run is also replayed on the extracted driver model '
-        '(coq/Model/JunosParse.v) and compared after every read. A case is distinct by (document, filter, request kind) resp. '
+        'for streams with single-leaf / deeper filters, first-child / wrapper replies all combinations of forms are run; (f) base:1.1: the same generated streams (1-3 replies, also histories) chunk-framed per RFC 6242 on a session that selected base:1.1 -- '
+        'chunking per message: one chunk, several, boundaries inside tags, inside multi-byte characters, chunks of 1-9 octets, one octet per chunk -- read uncut, with a cut at every offset inside/at the edge of '
+        'chunk headers and end-of-chunks (quick: 30 of them), cuts in the chunk data, double cuts in the framing octets, random multi-cuts, octet by octet; filters in all forms (drawn per request + all combinations for some streams); '
+        'streams with one reply not well-formed; same oracles (mode-off run on the same chunked stream / xml.etree projection). Every cut run is also replayed on the extracted driver model '
+        '(coq/Model/JunosParse.v for base:1.0, coq/Model/JunosParse11.v = C01 de-chunker + _dispatch11 for base:1.1) and compared after every read. A case is distinct by (document, filter, request kind) resp. '
         '(stream, filters, cuts); non-trivial = the request has a filter and the document has at least one kept and one '
         'dropped element, or the stream is cut.')
 ASSUMES = ['expat delivers the SAX events of the byte stream fed so far, independent of how it was fed, with raw qualified names (pyexpat 2.5.0: no reparse deferral)',
-           'driver model: the octets the SAX handler writes never contain "]]>" (they are kept apart from the delimiter search); NETCONF 1.0 framing; the verdict of Session._dispatch_message on a DOM message (does parse_root find a root) and the per-octet events of expat are oracles supplied by the harness',
+           'driver model: the octets the SAX handler writes never contain "]]>" (they are kept apart from the delimiter search); base:1.0 branch (JunosParse.v): NETCONF 1.0 framing; base:1.1 branch (JunosParse11.v): the de-chunker is the C01 model Framing11.feed11, and the harness sets session._base itself (negotiation is C07/C01 ground); the verdict of Session._dispatch_message on a DOM message (does parse_root find a root) and the per-octet events of expat are oracles supplied by the harness',
            'lxml Element.find(tag, namespaces) / getparent / builder.E behave as modelled (first child by Clark tag, SyntaxError on unknown prefix, ValueError on prefixed tag)',
            'the model takes the filter as a tree (ftree) whatever object the caller handed over; that an lxml element, a sub-element or a shared element behaves like the text is checked by the correspondence (family (e)), not proved; an Element filter object is re-parented by the wrapper step',
+           'base:1.1: the de-chunked message is re-encoded as UTF-8 for the XML parser (a reply declaring another encoding is outside NETCONF and outside the check)',
            'byte-level recovery (_delimiter_check, only reached for input that is not well-formed XML) is not modelled: the driver model ends in an explicit Stuck state there and the comparison stops at that read']
-TRUSTED = ['modelled, not verified: expat, lxml, difflib; DefaultXMLParser._parse10 (C01) is used as is for the hand-over',
+TRUSTED = ['modelled, not verified: expat, lxml, difflib; DefaultXMLParser._parse10 (C01) is used as is for the hand-over, DefaultXMLParser._parse11 (C01 model Framing11, tied there and again here read by read: buffer and chunks in progress) for de-chunking',
            'the rendering of the handler output to bytes (render) is tied to the code by the correspondence only; the projection theorem speaks about output events']
 ALLOWED_AXIOMS = []
 
@@ -317,8 +321,20 @@ def _doc_bytes(case, i):
         b = b.replace(b'</rpc-reply>', b'<oops></rpc-reply>').replace(b'</nc:rpc-reply>', b'<oops></nc:rpc-reply>')
     return (XML_DECL if case.get('decl') and case['decl'][i] else b'') + b
 
+def base_of(case):
+    """10: end-of-message framing (cases recorded before the base:1.1 family carry no key); 11: chunked framing"""
+    return 11 if case.get('base') == 11 else 10
+
+def msg_bytes11(case, i):
+    """base:1.1: message i as it is chunked: the reply and the white space the server ends it with (gaps[i]; inside the
+    message: nothing may stand between end-of-chunks and the next chunk header)"""
+    return _doc_bytes(case, i) + case['gaps'][i].encode()
+
 def stream_bytes(case):
     H, G = _H()
+    if base_of(case) == 11:
+        # RFC 6242: every message in chunks of the recorded sizes, then end-of-chunks; nothing between messages
+        return b''.join(H.chunk_frame(msg_bytes11(case, i), case['chunks'][i]) for i in range(len(case['docs'])))
     s = b''
     for i, g in enumerate(case['gaps']):
         s += _doc_bytes(case, i) + H.DELIM + g.encode()
@@ -329,10 +345,10 @@ def path_expected(case):
     off, and for filtered requests the projection (canonical trees of raw and of the transformed reply)."""
     H, G = _H()
     stream = stream_bytes(case)
-    off = H.run_stream([stream], [None] * len(case['docs']), use_filter=False, forms=off_forms(case))
+    off = H.run_stream([stream], [None] * len(case['docs']), use_filter=False, forms=off_forms(case), base=base_of(case))
     exp = []
-    for d, f, o in zip(case['docs'], case['filters'], off):
-        if o[0] != 'reply':
+    for i, (d, f, o) in enumerate(zip(case['docs'], case['filters'], off)):
+        if o[0] != 'reply' or case.get('corrupt') == i:
             exp.append(('off-failed', o)); continue
         if f is None:
             exp.append(('same', o))
@@ -370,7 +386,7 @@ def run_path(case, cuts):
         segs = [stream[i:i + 1] for i in range(len(stream))]
     else:
         segs = H.cuts_to_segments(stream, cuts)
-    return H.run_stream(segs, fstrs, use_filter=True, forms=forms_of(case))
+    return H.run_stream(segs, fstrs, use_filter=True, forms=forms_of(case), base=base_of(case))
 
 def run_path_obs(case, cuts):
     """run_path with the per-read observations of harness/saxseg.py"""
@@ -379,11 +395,12 @@ def run_path_obs(case, cuts):
     stream = stream_bytes(case)
     fstrs = [None if f is None else G.filter_str(_ftup(f)) for f in case['filters']]
     segs = [stream[i:i + 1] for i in range(len(stream))] if cuts == 'bytewise' else H.cuts_to_segments(stream, cuts)
-    return S.run_stream_obs(segs, fstrs, use_filter=True, forms=forms_of(case))
+    return S.run_stream_obs(segs, fstrs, use_filter=True, forms=forms_of(case), base=base_of(case))
 
 def check_driver_model(ctx, case, stream, runs):
     """JunosParse.run (extracted, instance JunosSax) vs the implementation, read by read, for the cut runs of one stream"""
     if not ctx.model or not runs: return
+    if base_of(case) == 11: return check_driver_model11(ctx, case, stream, runs)
     H, G = _H()
     from harness import saxseg as S
     fstrs = [None if f is None else G.filter_str(_ftup(f)) for f in case['filters']]
@@ -399,13 +416,32 @@ def check_driver_model(ctx, case, stream, runs):
                              'JunosParse.run vs JunosXMLParser.parse: ' + bad[0], theorem='C18_segmentation_independent')
                 return
 
+def check_driver_model11(ctx, case, stream, runs):
+    """JunosParse11.run11 (extracted, glue fn 5: C01's de-chunker + _dispatch11, instance JunosSax) vs the implementation on a
+    base:1.1 session, read by read"""
+    H, G = _H()
+    from harness import saxseg as S
+    fstrs = [None if f is None else G.filter_str(_ftup(f)) for f in case['filters']]
+    msgs = [msg_bytes11(case, i) for i in range(len(case['docs']))]
+    world = S.world_for11(msgs, H.ids_for(len(msgs)), fstrs, env_val, events_val)
+    for k in range(0, len(runs), 400):
+        part = runs[k:k + 400]
+        mres = ctx.model.call([5, world, stream, [S.lens_of(stream, c) for c, _ in part]])
+        for (cuts, log), m in zip(part, mres):
+            bad = S.compare11(m, log)
+            ctx.hist('driver_model', 'base:1.1 compared')
+            if bad:
+                ctx.disagree(dict(case, cuts=cuts if cuts == 'bytewise' else list(cuts)), repr(bad[1])[:600], repr(bad[2])[:600],
+                             'JunosParse11.run11 vs JunosXMLParser.parse on a base:1.1 session: ' + bad[0], theorem='C18_base11_reads_independent')
+                return
+
 def path_sig(case, cuts):
     """Signature of a whole-path failure: if the same failure shows without any cut it is a handler-level class,
     otherwise it depends on the segmentation and no open finding covers it."""
     H, G = _H()
     stream, exp = path_expected(case)
     res = run_path(case, cuts)
-    if any(tuple(r) == ('error', 'UnicodeDecodeError') for r in res) and any(b >= 0x80 for b in stream):
+    if base_of(case) == 10 and any(tuple(r) == ('error', 'UnicodeDecodeError') for r in res) and any(b >= 0x80 for b in stream):
         # F1 (property C01, DefaultXMLParser._parse10): the look-back offset into the buffer can fall inside a
         # multi-byte character; that class is repaired there, not in the Junos parser
         return 'dep_c01_f1_parse10_lookback_inside_multibyte_character'
@@ -425,11 +461,103 @@ def interesting_positions(case):
         off += len(b) + 6 + len(g)
     return pos
 
+# ------------------------------------------------------------------ (f) base:1.1: the same replies in chunked framing
+CHUNKINGS = ('one', 'several', 'tags', 'multibyte', 'small', 'bytewise')
+
+def _inside_tags(b):
+    """chunk boundaries that fall inside a tag: offsets p with a '<' before p that is not closed before p"""
+    pos, inside = [], False
+    for i in range(1, len(b)):
+        c = b[i - 1]
+        if c == 0x3c: inside = True
+        elif c == 0x3e: inside = False
+        if inside: pos.append(i)
+    return pos
+
+def _inside_chars(b):
+    """chunk boundaries inside a multi-byte UTF-8 character: the octet after the boundary is a continuation octet"""
+    return [i for i in range(1, len(b)) if b[i] & 0xC0 == 0x80]
+
+def _sizes(cuts, L):
+    cs = sorted(set(c for c in cuts if 0 < c < L))
+    return [b - a for a, b in zip([0] + cs, cs)]          # the rest is the last chunk (saxpath.chunk_frame)
+
+def gen_chunks(rng, b, style):
+    """-> (style used, chunk sizes) for the message b"""
+    L = len(b)
+    if style == 'multibyte' and not _inside_chars(b): style = 'tags'
+    if style == 'one' or L < 2: return 'one', []
+    if style == 'several': return style, _sizes(rng.sample(range(1, L), min(L - 1, rng.randint(1, 5))), L)
+    if style == 'tags':
+        c = _inside_tags(b); return style, _sizes(rng.sample(c, min(len(c), rng.randint(1, 4))), L)
+    if style == 'multibyte':
+        c = _inside_chars(b); t = _inside_tags(b)
+        return style, _sizes(rng.sample(c, min(len(c), rng.randint(1, 3))) + rng.sample(t, rng.randint(0, 1)), L)
+    if style == 'small':
+        sz, n = [], 0
+        while n < L:
+            k = rng.randint(1, 9); sz.append(k); n += k
+        return style, sz[:-1]
+    if style == 'bytewise': return style, [1] * (L - 1)
+    raise ValueError(style)
+
+def gen_stream11(rng, k):
+    """a stream of gen_stream, chunk-framed: chunking style k mod 6 for the first message, mostly the same for the others"""
+    style = CHUNKINGS[k % len(CHUNKINGS)]
+    for _try in range(40):
+        case = gen_stream(rng, linked=True, p_filter=0.65) if k % 5 == 4 else gen_stream(rng, n_replies=rng.choice([1, 2, 2, 3]), p_filter=0.65)
+        case['base'] = 11
+        if style != 'multibyte' or _inside_chars(_doc_bytes(case, 0)): break
+    n = len(case['docs'])                                     # gaps: white space at the END of each message (a trailing line feed is common)
+    case['chunking'], case['chunks'] = [], []
+    for i in range(n):
+        u, sz = gen_chunks(rng, msg_bytes11(case, i), style if i == 0 or rng.random() < 0.6 else rng.choice(CHUNKINGS))
+        case['chunking'].append(u); case['chunks'].append(sz)
+    return case
+
+def frame_positions(case):
+    """base:1.1: the (start, end) offsets of every chunk header and end-of-chunks in the stream"""
+    H, G = _H()
+    pos, off = [], 0
+    for i in range(len(case['docs'])):
+        b = msg_bytes11(case, i); j = 0
+        for n in list(case['chunks'][i]) + [len(b)]:
+            n = min(int(n), len(b) - j)
+            if n <= 0: continue
+            h = len(b'\n#%d\n' % n)
+            pos.append((off, off + h)); off += h + n; j += n
+        pos.append((off, off + 4)); off += 4
+    assert off == len(stream_bytes(case))
+    return pos
+
+def cuts11(rng, case, thorough):
+    """reads for a chunked stream: uncut; a cut at every offset inside / at the edges of chunk headers and end-of-chunks
+    (quick: at most 30 of them, thorough 150); cuts in the chunk data (quick: 12; thorough: 100); double cuts with both cuts in the framing
+    octets; random multi-cuts; octet by octet"""
+    L = len(stream_bytes(case))
+    fr = sorted({p for a, b in frame_positions(case) for p in range(max(1, a), min(L - 1, b) + 1)})
+    data = [c for c in range(1, L) if c not in set(fr)]
+    cap = 150 if thorough else 30
+    frs = fr if len(fr) <= cap else sorted(rng.sample(fr, cap))
+    cutsets = [[]] + [[c] for c in frs]
+    cutsets += [[c] for c in sorted(rng.sample(data, min(len(data), 100 if thorough else 12)))]
+    for _ in range(20 if thorough else 3):
+        if len(fr) >= 2: cutsets.append(sorted(rng.sample(fr, 2)))
+    for _ in range(15 if thorough else 4):
+        cutsets.append(sorted(rng.sample(range(1, L), min(L - 1, rng.choice([3, 4, 6, 8])))))
+    if L < (1500 if thorough else 400): cutsets.append('bytewise')
+    return cutsets
+
 def check_path_case(ctx, case, cutsets):
     H, G = _H()
     stream, exp = path_expected(case)
     ctx.hist('path_replies', len(case['docs'])); ctx.hist('path_filters', ''.join('F' if f is not None else '-' for f in case['filters']))
     ctx.hist('path_stream_len', len(stream) // 50 * 50)
+    ctx.hist('path_base', '1.1 (chunked)' if base_of(case) == 11 else '1.0 (end-of-message)', len(cutsets))
+    if base_of(case) == 11:
+        for u, sz, f in zip(case.get('chunking') or ['?'] * len(case['docs']), case['chunks'], case['filters']):
+            ctx.hist('path11_chunking', '%s, %s' % (u, 'filter' if f is not None else 'no filter'), len(cutsets))
+            n = len(sz) + 1; ctx.hist('path11_chunks_per_message', '1' if n == 1 else '2-4' if n < 5 else '5-19' if n < 20 else '20+')
     for d, f, fm in zip(case['docs'], case['filters'], forms_of(case)):
         ctx.hist('path_filter_form', fm if f is None else '%s, %s, %s' % (fm, 'single leaf' if not f[1] else 'with children',
                  'wrapper' if 'wrapper' in G.reasons(_tup(d), _ftup(f)) else 'first child'), len(cutsets))
@@ -483,6 +611,32 @@ def check_malformed_case(ctx, case, cutsets):
     ctx.hist('path_malformed', 'expat rejects (filter)' if filtered else
              ('DOM message without a root lxml accepts (no filter): the DOM parser stays' if case.get('corrupt_kind') == 'nons'
               else 'DOM message not well-formed after its start tag (no filter)'), len(runs))
+
+def check_malformed11_case(ctx, case, cutsets):
+    """base:1.1, one reply of the stream not well-formed.  The property says nothing about that reply; the other requests
+    must get what the property says, and what every request gets must not depend on the cuts (chunked framing has no
+    recovery heuristics: also for a filtered request, whose message expat rejects)."""
+    stream, exp = path_expected(case)
+    k = case['corrupt']
+    exp = [('off-failed', None) if i == k else e for i, e in enumerate(exp)]
+    runs, base = [], None
+    for cuts in cutsets:
+        res, log = run_path_obs(case, cuts)
+        runs.append((cuts, log))
+        c = dict(case, cuts=cuts if cuts == 'bytewise' else list(cuts))
+        v = path_verdict(exp, res)
+        if v:
+            ctx.fail(c, 'base:1.1, stream with a malformed reply (to request %d): %s [cuts %s]' % (k, v[1], cuts), sig=None, expected=v[2], actual=v[3])
+            break
+        if base is None: base = res
+        elif res != base:
+            ctx.fail(c, 'base:1.1, stream with a malformed reply: results depend on the cuts %s' % (cuts,),
+                     sig=None, expected=[list(r) for r in base], actual=[list(r) for r in res])
+            break
+    check_driver_model(ctx, case, stream, runs)
+    ctx.evaluations += len(runs); ctx.traces += len(runs)
+    ctx.hist('path_malformed', 'base:1.1, ' + ('filter' if case['filters'][k] is not None else 'no filter') +
+             (', root lxml refuses' if case.get('corrupt_kind') == 'nons' else ', not well-formed after the start tag'), len(runs))
 
 def load_corpus():
     out = []
@@ -546,6 +700,27 @@ def run(ctx):
         if k % 4 == 0: case['corrupt_kind'] = 'nons'
         L = len(stream_bytes(case))
         check_malformed_case(ctx, case, [[]] + [[c] for c in range(1, L, 1 if thorough else 3)])
+    # (f) base:1.1: the same replies chunk-framed (RFC 6242), session negotiated to base:1.1
+    import time; t11 = time.time()
+    for k in range(60 if thorough else 30):
+        case = gen_stream11(rng, k)
+        check_path_case(ctx, case, cuts11(rng, case, thorough))
+    #     ... every way of handing over the filters, on chunked streams
+    for k in range(10 if thorough else 5):
+        case = gen_stream11(rng, k)
+        case['docs'], case['filters'], case['chunks'] = case['docs'][:2], case['filters'][:2], case['chunks'][:2]
+        case['gaps'], case['decl'], case['chunking'] = case['gaps'][:2], case['decl'][:2], case['chunking'][:2]
+        check_forms_case(ctx, case, rng)
+    #     ... one reply of the stream not well-formed
+    for k in range(20 if thorough else 8):
+        case = gen_stream11(rng, k)
+        case['corrupt'] = k % len(case['docs'])
+        if k % 4 == 3: case['corrupt_kind'] = 'nons'
+        for i in range(len(case['docs'])):              # the message changed: chunk sizes drawn again
+            case['chunking'][i], case['chunks'][i] = gen_chunks(rng, msg_bytes11(case, i), case['chunking'][i])
+        L = len(stream_bytes(case))
+        check_malformed11_case(ctx, case, [[]] + [[c] for c in sorted(rng.sample(range(1, L), min(L - 1, 40 if thorough else 12)))] + ['bytewise'])
+    ctx.extra['base11_family_wall_s'] = round(time.time() - t11, 1)
     if thorough:
         # all double cuts of two short streams (two adjacent replies, filter/no filter)
         for k in range(2):
@@ -602,6 +777,15 @@ def search(ctx, seeds):
                 sig = path_sig(case, cuts)
                 if not findings.covered(ID, sig):
                     return dict(case=dict(case, cuts=cuts), what=v[1], sig=sig, expected=v[2], actual=v[3])
+    for k in range(18):                      # chunked framing
+        case = gen_stream11(rng, k)
+        stream, exp = path_expected(case)
+        for cuts in cuts11(rng, case, False):
+            v = path_verdict(exp, run_path(case, cuts))
+            if v:
+                sig = path_sig(case, cuts)
+                if not findings.covered(ID, sig):
+                    return dict(case=dict(case, cuts=cuts), what=v[1], sig=sig, expected=v[2], actual=v[3])
     for i in range(3000):
         f = new(handler_case(rng, i))
         if f: return f
@@ -617,6 +801,7 @@ def replay(doc):
     if c.get('kind') == 'path':
         print('stream   :', stream_bytes(c)); print('filters  :', [None if f is None else G.filter_str(_ftup(f)) for f in c['filters']])
         print('handed over as / request without filter issued as (harness/saxpath.py FILTER_FORMS, NOFILTER_FORMS):', forms_of(c)); print('cuts     :', c.get('cuts'))
+        if base_of(c) == 11: print('framing  : base:1.1, chunk sizes per message (the rest of a message is its last chunk):', c.get('chunks'))
     else:
         print('document :', G.ser(_tup(c['doc']))); print('filter   :', G.filter_str(_ftup(c['filter'])), '(handed over as %s)' % c.get('form', 'text')); print('request  :', c['req'])
     if r:
